@@ -595,8 +595,12 @@ ROUND2 = {
  "C16": " THE SERVICE, NOT ONLY THE LIBRARY (round 2): the server model's environment is instantiated with the concrete library models (SrvC.libEnv, ONE definition shared by the driver and the theorems); parse_task_stores_framework / _error, solve_request_uses_stored_framework, "
         "solve_task_stores_answer (the write of a solve task stores exactly the library model's answer for the STORED framework under the addressed problem and strategy), write_touches_only_its_target, get_returns_stored, served_answer_for_code (what GET shows under a strategy is the definitional answer for the submitted code, all six strategies), "
         "storage_roundtrip_identity + solve_after_roundtrip_same (SimplifiedAdf round trip is the identity on ordering, node table and ac), graph_hyp_of_accepted_text (graph hypotheses DERIVED from parser facts), graphs_faithful_under_the_shown_model (all six strategies), "
-        "reachable_results_belong_to_the_code (every state reachable by a deletion/rename-free history of any users in any interleaving; histStale shows the restriction is needed - the D9 mechanism).",
- "C17": " Round 2: touches split into acts-for and mentions (touches_split); mentions_only_harmless (register/update/login that merely NAME an existing account leave its data, credential and responses unchanged; the other user gets 409), isolation_mentions_allowed, noop_event_unobservable, stored_uses_request_salt.",
+        "reachable_results_belong_to_the_code (every state reachable by a deletion/rename-free history of any users in any interleaving; histStale shows the restriction is needed - the D9 mechanism). HYBRID PARSING MODELLED: parseHybrid (library-side from_parser incl. repeated/missing ac facts, hybrid_step_opt(false)) with hybrid_parse_denotes_code; the run-time check of adopted tables strengthened (storedAdfOK': roots and variables in range) and PROVED to imply Denotes (stored_adf_check_implies_denotes); "
+        "served_answer_for_code_any_parsing (both parsings, no Denotes hypothesis). ALL HISTORIES: ghost taint of keys (user name, problem name) characterises D9's history shape exactly - reachable_untainted_belong_to_the_code, no_d9_all_belong, recreated_clean_belongs (deletes, account removals and renames allowed), "
+        "reachable_results_from_submitted_codes (provenance for every key, tainted or not), reachable_served_answer_checked.",
+ "C17": " Round 2: touches split into acts-for and mentions (touches_split); mentions_only_harmless (register/update/login that merely NAME an existing account leave its data, credential and responses unchanged; the other user gets 409), isolation_mentions_allowed, noop_event_unobservable, stored_uses_request_salt. Several sessions per account: noninterference_jars (any set of jars logged in to one account). COMMAND GRANULARITY (ServerCmd): every handler as a program of database commands in the order of the Rust, a pool of in-flight requests, any interleaving of single commands, deliveries and task events; "
+        "atomic_is_sequential_schedule (the atomic model of the other theorems = the sequential schedules), log_carries_identity (every command issued for a session names that session's user: what the isolation monitor observes), find_returns_own, responses_from_own_finds, isolation_all_schedules, credentials_all_schedules / never_plaintext_all_schedules, "
+        "usernames_unique_all_schedules, register_race (all six interleavings decided: the loser gets 409 or 500), and the races that the model exposed in the real code as counterexample theorems with explicit schedules: add_race_duplicate / add_race_wrong_answer (check-then-act in add_adf_problem: finding D14), delete_add_race_orphan, solve_race_two_tasks.",
  "C19": " RELAY CHAIN OF ANY LENGTH (round 2): StreamChain - producer, k relays, all interleavings of create/deliver/poll/drop: chain_mirror_prefix, chain_same_node, chain_poll_found, chain_drained_equal, chain_drain_reaches_equal, chain_relay_independent_of_downstream, chain_after_drop; one_relay_is_chain2 links the round-1 theorems.",
 }
 for _p, _t in ROUND2.items():
